@@ -229,6 +229,19 @@ pub async fn exec_602(a: &Args) -> Args {
     push(&mut out, p_dg.await.unwrap());
     push(&mut out, if kind == 0 { call_bi(&conn, T_SUB).await } else { call_uni(&conn, T_SUB).await });
     push(&mut out, call_dg(&conn, T_SUB).await);
+    // now the application drains the backlog kind: it is handed every waiting stream (those in the
+    // channel, then those whose tasks were parked), and then the end
+    let mut handed = 0u64;
+    let last = loop {
+        let r = if kind == 0 { call_uni(&conn, T_SUB).await } else { call_bi(&conn, T_SUB).await };
+        if r.0 == vec![TAG_OK] && handed < 1000 {
+            handed += 1;
+            continue;
+        }
+        break r;
+    };
+    out.push(vec![handed]);
+    push(&mut out, last);
     if let Some(s) = &guards.0 { s.close(vi(0), b""); }
     if let Some(e) = &guards.1 { e.close(qvi(0), b""); }
     if let Some(c) = &guards.2 { c.close(vi(0), b""); }
@@ -239,6 +252,12 @@ pub async fn exec_602(a: &Args) -> Args {
 pub fn oracle_602(a: &Args, out: &Args) -> Option<(&'static str, String)> {
     if out[0][0] != 1 || out.len() < 9 {
         return None;
+    }
+    if out.len() >= 12 {
+        let (h, r) = (&out[10], &out[11]);
+        if out[9] != vec![a[0][1]] || *h != vec![1, a[0][2]] || *r != a[1] {
+            return Some(("C09+C08", format!("{} streams were waiting when the peer closed the session with code {}: an application draining them afterwards was handed {} and then got {:?} / reason {:?} (expected all of them, then the peer's code and reason)", a[0][1], a[0][2], out[9][0], h, r)));
+        }
     }
     let names = ["pending accept of the other kind", "pending receive_datagram", "later accept of the other kind", "later receive_datagram"];
     for (i, name) in names.iter().enumerate() {
